@@ -257,37 +257,24 @@ def _preserve_common(ck: Check, repo: Repo, fn: Fn, rule: str) -> None:
     # buffers: the layer builders create modules whose function depends on registered buffers (BatchNorm running statistics)
     users = _buffer_layer_sites(repo)
     ck.note("C04_buffer_layers", users[:8])
+    # both obligations hold when the function itself does it, or when it hands both networks to a function of the package that does
+    # (a helper shared by the two preserve functions, defined in another module: followed interprocedurally, parameters bound to arguments)
+    scopes = [(cfg, tb, old_p, new_p, None)] + _delegates(repo, fn, cfg, old_p, new_p)
     if users:
-        bl = [n for n in cfg.live_nodes() if n.kind == "for" and isinstance(n.ast.iter, ast.Call) and last_attr(n.ast.iter) in ("named_buffers", "state_dict")
-              and dotted(n.ast.iter.func.value) == new_p] + \
-             [n for n in cfg.live_nodes() if n.kind == "for" and any(isinstance(c, ast.Call) and last_attr(c) == "named_buffers" and dotted(c.func.value) == new_p for c in ast.walk(n.ast.iter))]
-        okb = False
-        whyb = f"{fn.name} iterates over named_parameters() only"
-        for l in bl:
-            tvars = {x.id for x in ast.walk(l.ast.target) if isinstance(x, ast.Name)}
-            for st in ast.walk(l.ast):
-                if isinstance(st, ast.Assign) and isinstance(st.targets[0], (ast.Attribute, ast.Subscript)):
-                    tgt_names = {x.id for x in ast.walk(st.targets[0]) if isinstance(x, ast.Name)}
-                    node = cfg.node_of(st)
-                    if node is None or not (tgt_names & tvars):
-                        continue
-                    rt = tb.term(st.value, node)
-                    if _from(tb, rt, old_p) and not _from(tb, rt, new_p):
-                        okb = True
-                elif isinstance(st, ast.Call) and last_attr(st) == "copy_" and st.args:
-                    node = cfg.node_of(st)
-                    base_names = {x.id for x in ast.walk(st.func.value) if isinstance(x, ast.Name)}
-                    if node is not None and base_names & tvars and _from(tb, tb.term(st.args[0], node), old_p):
-                        okb = True
-            if not okb:
-                whyb = f"{fn.name} iterates over the new network's buffers but stores nothing derived from the old network into them"
-        ck.ob(rule, fn, bl[0].ast.iter if bl else fn.node, okb,
+        okb, whyb, anchor = False, f"{fn.name} iterates over named_parameters() only", None
+        for scfg, stb, sold, snew, call in scopes:
+            if okb:
+                break
+            okb, why1, a1 = _buffers_carried_over(scfg, stb, sold, snew, fn.name if call is None else f"{call_name(call)} (called by {fn.name})")
+            if a1 is not None and (anchor is None or okb):
+                whyb, anchor = why1, a1 if call is None else call
+        ck.ob(rule, fn, anchor if anchor is not None else fn.node, okb,
               f"{fn.name}: buffers of unchanged shape (BatchNorm running statistics ...) are carried over from the old network",
               detail=whyb + f"; the layer builders create buffered layers ({users[0]} ...): after a mutation that leaves the architecture unchanged the rebuilt "
                      "network would start from fresh running statistics and compute a different function in eval mode",
               construct=f"{fn.name}: buffers carried over")
     # train / eval mode: a freshly built network is in training mode; the one it replaces may be in evaluation mode (BatchNorm, dropout, noisy layers)
-    mode = _mode_carried_over(cfg, old_p, new_p)
+    mode = any(_mode_carried_over(scfg, sold, snew) for scfg, _, sold, snew, _ in scopes)
     ck.ob(rule, fn, fn.node, mode, f"{fn.name}: the rebuilt network is put into the train / eval mode of the network it replaces",
           detail="the new network stays in training mode: after module.eval() a mutation that leaves the architecture unchanged makes a BatchNorm CNN use batch statistics "
                  "again (eval outputs differed by 0.56 in the probe)",
@@ -320,6 +307,85 @@ def _preserve_common(ck: Check, repo: Repo, fn: Fn, rule: str) -> None:
               detail=f"resized parameters are additionally filtered by `{e}`: a matching parameter whose size changed is left freshly initialised "
                      "(its overlapping weights are not carried over)",
               construct=f"{fn.name}: extra filter {e}")
+
+
+def _buffers_carried_over(cfg: CFG, tb: TermBuilder, old_p: str, new_p: str, who: str) -> Tuple[bool, str, Optional[ast.AST]]:
+    """Some loop over the buffers of the network held by parameter new_p stores into them a value derived from the network held by old_p.
+    Returns (holds, reason when it does not, the loop's iterable or None when there is no such loop)."""
+    bl = [n for n in cfg.live_nodes() if n.kind == "for" and isinstance(n.ast.iter, ast.Call) and last_attr(n.ast.iter) in ("named_buffers", "state_dict")
+          and dotted(n.ast.iter.func.value) == new_p] + \
+         [n for n in cfg.live_nodes() if n.kind == "for" and any(isinstance(c, ast.Call) and last_attr(c) == "named_buffers" and dotted(c.func.value) == new_p for c in ast.walk(n.ast.iter))]
+    okb = False
+    whyb = f"{who} iterates over named_parameters() only"
+    for l in bl:
+        tvars = {x.id for x in ast.walk(l.ast.target) if isinstance(x, ast.Name)}
+        for st in ast.walk(l.ast):
+            if isinstance(st, ast.Assign) and isinstance(st.targets[0], (ast.Attribute, ast.Subscript)):
+                tgt_names = {x.id for x in ast.walk(st.targets[0]) if isinstance(x, ast.Name)}
+                node = cfg.node_of(st)
+                if node is None or not (tgt_names & tvars):
+                    continue
+                rt = tb.term(st.value, node)
+                if _from(tb, rt, old_p) and not _from(tb, rt, new_p):
+                    okb = True
+            elif isinstance(st, ast.Call) and last_attr(st) == "copy_" and st.args:
+                node = cfg.node_of(st)
+                base_names = {x.id for x in ast.walk(st.func.value) if isinstance(x, ast.Name)}
+                if node is not None and base_names & tvars and _from(tb, tb.term(st.args[0], node), old_p):
+                    okb = True
+        if not okb:
+            whyb = f"{who} iterates over the new network's buffers but stores nothing derived from the old network into them"
+    return okb, whyb, (bl[0].ast.iter if bl else None)
+
+
+def _callee(repo: Repo, fn: Fn, cfg: CFG, c: ast.Call, n: Node) -> Optional[Fn]:
+    """The function of the package that the call denotes, when its parameters are bound one to one to the arguments: a module-level function
+    called by its (imported or local) name, or a static method called through its class `Cls.f(...)`; None otherwise."""
+    f = c.func
+    if isinstance(f, ast.Name) and not cfg.defs_reaching(n, f.id):
+        g = repo.resolve(fn.mod, f.id)
+        return g if isinstance(g, Fn) and g.cls is None else None
+    if isinstance(f, ast.Attribute) and isinstance(f.value, ast.Name) and not cfg.defs_reaching(n, f.value.id):
+        k = repo.resolve(fn.mod, f.value.id)
+        g = repo.find_method(k, f.attr) if isinstance(k, Cls) else None
+        return g if g is not None and g.has_decorator("staticmethod") else None
+    return None
+
+
+def _delegates(repo: Repo, fn: Fn, cfg: CFG, old_p: str, new_p: str, _depth: int = 0) -> List[Tuple[CFG, TermBuilder, str, str, ast.Call]]:
+    """Calls, executed by a live statement of fn, of a function of the package (a module-level function resolved through the module's own
+    definitions and imports, or a static method named through its class) that receives BOTH networks: one parameter of the callee is bound to the old network and another one to the new network
+    (positionally or by keyword, either argument possibly through a temporary).  For each: the callee's CFG and terms, the names of the two
+    callee parameters standing for the old / new network, and the call (callees of callees are followed, two levels)."""
+    out: List[Tuple[CFG, TermBuilder, str, str, ast.Call]] = []
+    for c in calls_in(fn.node):
+        n = cfg.node_of(c)
+        if n is None or n not in cfg.live_nodes():
+            continue
+        g = _callee(repo, fn, cfg, c, n)
+        if g is None or g.node is fn.node or isinstance(g.node, ast.AsyncFunctionDef):
+            continue
+        a = g.node.args
+        if a.vararg or a.kwarg or any(isinstance(x, ast.Starred) for x in c.args) or any(k.arg is None for k in c.keywords):
+            continue
+        names = [x.arg for x in a.posonlyargs + a.args]
+        bound: Dict[str, ast.AST] = dict(zip(names, c.args))
+        if len(c.args) > len(names):
+            continue
+        for k in c.keywords:
+            if k.arg in bound or k.arg not in names + [x.arg for x in a.kwonlyargs]:
+                bound = {}
+                break
+            bound[k.arg] = k.value
+        olds = [p for p, v in bound.items() if _is_net(cfg, v, n, old_p)]
+        news = [p for p, v in bound.items() if _is_net(cfg, v, n, new_p)]
+        if len(olds) != 1 or len(news) != 1:
+            continue
+        gcfg = CFG(g.node)
+        out.append((gcfg, TermBuilder(repo, g, cfg=gcfg, depth=0), olds[0], news[0], c))
+        if _depth < 1:
+            out += [(x[0], x[1], x[2], x[3], c) for x in _delegates(repo, g, gcfg, olds[0], news[0], _depth + 1)]
+    return out
 
 
 _BUFFERED = ("BatchNorm1d", "BatchNorm2d", "BatchNorm3d", "InstanceNorm2d", "InstanceNorm3d")
@@ -443,35 +509,168 @@ def _same_index(cfg: CFG, a: ast.AST, an: Node, b: ast.AST, bn: Node) -> bool:
     return ra is rb
 
 
+# one value an index expression can take: (per-dimension index expressions with the node where each is read — None for the generic form,
+#   conditions (test, polarity, test node) under which the index has this value, generic form (generator, node where it is read) or None)
+_IndexCase = Tuple[Optional[List[Tuple[ast.AST, Node]]], List[Tuple[ast.AST, bool, Node]], Optional[Tuple[ast.AST, Node]]]
+
+
+def _is_slice_object(e: ast.AST) -> bool:
+    return isinstance(e, ast.Slice) or (isinstance(e, ast.Call) and call_name(e) == "slice")
+
+
+def _reach_condition(cfg: CFG, d: Node, defs: List[Node], name: str, n: Node) -> Optional[List[Tuple[ast.AST, bool, Node]]]:
+    """Of the definitions `defs` of `name` reaching n, d is the one read at n exactly on the paths described by the result: the tests known
+    at d (beyond those known at n anyway), and — for every other definition that overwrites d on its way to n — the negation of the single
+    test under which that one is executed.  None: not expressible that simply."""
+    at_n = {(t.id, pol) for _, pol, t in cfg.guards_at(n)}
+    extra = lambda x: [(a, apol, t) for g, pol, t in cfg.guards_at(x) if (t.id, pol) not in at_n for a, apol in conjuncts(g, pol)]  # noqa: E731
+    out = extra(d)
+    for o in defs:
+        # (a definition that dominates d was executed before d: it can be met again only through a loop's back edge, in a later iteration)
+        if o is d or d not in cfg.defs_reaching(o, name) or cfg.dominates(o, d):
+            continue
+        over = [c for c in extra(o) if not any(c[0] is x[0] and c[1] == x[1] for x in out)]
+        if len(over) != 1:
+            return None
+        out = out + [(over[0][0], not over[0][1], over[0][2])]
+    return out
+
+
+def _index_cases(cfg: CFG, e: ast.AST, n: Node, _d: int = 0) -> Optional[List[_IndexCase]]:
+    """The values of the index expression e read at node n, by cases: a tuple display / a single slice; tuples concatenated with `+` / `+=`;
+    a conditional expression; a local, through ALL its reaching definitions (each with the condition under which it is the one read);
+    `tuple(<generator>)[:2]` (generic form: one entry per dimension, the first two kept).  None: not understood."""
+    if _d > 8:
+        return None
+    if isinstance(e, ast.Tuple):
+        return None if any(isinstance(x, ast.Starred) for x in e.elts) else [([(x, n) for x in e.elts], [], None)]
+    if _is_slice_object(e):
+        return [([(e, n)], [], None)]
+    if isinstance(e, ast.BinOp) and isinstance(e.op, ast.Add):
+        return _concat_cases(_index_cases(cfg, e.left, n, _d + 1), _index_cases(cfg, e.right, n, _d + 1))
+    if isinstance(e, ast.IfExp):
+        b, o = _index_cases(cfg, e.body, n, _d + 1), _index_cases(cfg, e.orelse, n, _d + 1)
+        if b is None or o is None:
+            return None
+        return [(x[0], x[1] + [(a, p, n) for a, p in conjuncts(e.test, True)], x[2]) for x in b] + \
+               [(x[0], x[1] + [(a, p, n) for a, p in conjuncts(e.test, False)], x[2]) for x in o]
+    if isinstance(e, ast.Subscript) and isinstance(e.slice, ast.Slice) and e.slice.step is None and const_value(e.slice.upper) == 2 \
+            and (e.slice.lower is None or const_value(e.slice.lower) == 0):
+        v, vn = _through(cfg, e.value, n)
+        if isinstance(v, ast.Call) and call_name(v) == "tuple" and len(v.args) == 1 and not v.keywords and isinstance(v.args[0], (ast.GeneratorExp, ast.ListComp)):
+            return [(None, [], (v.args[0], vn))]
+        inner = _index_cases(cfg, v, vn, _d + 1)
+        return None if inner is None or any(x[0] is None for x in inner) else [(x[0][:2], x[1], None) for x in inner]
+    if isinstance(e, ast.Name):
+        defs = cfg.defs_reaching(n, e.id)
+        out: List[_IndexCase] = []
+        for d in defs:
+            if d.kind != "stmt":
+                return None
+            if isinstance(d.ast, ast.AugAssign):
+                if not (isinstance(d.ast.op, ast.Add) and isinstance(d.ast.target, ast.Name) and d.ast.target.id == e.id):
+                    return None
+                cs = _concat_cases(_index_cases(cfg, d.ast.target, d, _d + 1), _index_cases(cfg, d.ast.value, d, _d + 1))
+            else:
+                v = cfg.value_of_def(d, e.id)
+                cs = None if v is None or getattr(v, "_unpack_len", None) is not None else _index_cases(cfg, v, d, _d + 1)
+            if cs is None:
+                return None
+            if len(defs) > 1:
+                cond = _reach_condition(cfg, d, defs, e.id, n)
+                if cond is None:
+                    return None
+                cs = [(x[0], x[1] + cond, x[2]) for x in cs]
+            out += cs
+        return out or None
+    return None
+
+
+def _concat_cases(l: Optional[List[_IndexCase]], r: Optional[List[_IndexCase]]) -> Optional[List[_IndexCase]]:
+    if l is None or r is None or any(x[0] is None for x in l + r):
+        return None
+    return [(x[0] + y[0], x[1] + y[1], None) for x in l for y in r]
+
+
+def _generic_min_index(roles: _Roles, gen: ast.AST, n: Node) -> bool:
+    """slice(0, min(o, n)) for o, n in zip(<old size>, <new size>)"""
+    if not (isinstance(gen, (ast.GeneratorExp, ast.ListComp)) and len(gen.generators) == 1 and not gen.generators[0].ifs
+            and isinstance(gen.generators[0].iter, ast.Call) and call_name(gen.generators[0].iter) == "zip"):
+        return False
+    g, e = gen.generators[0], gen.elt
+    tv = [x.id for x in g.target.elts if isinstance(x, ast.Name)] if isinstance(g.target, ast.Tuple) else []
+    return roles.is_size_pair(list(g.iter.args), n) and len(tv) == 2 and isinstance(e, ast.Call) and call_name(e) == "slice" and len(e.args) == 2 and not e.keywords \
+        and const_value(e.args[0]) == 0 and isinstance(e.args[1], ast.Call) and call_name(e.args[1]) == "min" and not e.args[1].keywords \
+        and len(e.args[1].args) == 2 and {dotted(a) for a in e.args[1].args} == set(tv)
+
+
+def _cut_at_min(cfg: CFG, roles: _Roles, sl: ast.AST, n: Node, k: int) -> bool:
+    """The index of dimension k, read at n, is the range from the start up to min(old_size[k], new_size[k]): `:U` / `0:U` / slice(U) /
+    slice(0, U) / slice(None, U), the bound U written in place or bound to a local first, the two sizes in either order."""
+    sl, n = _through(cfg, sl, n)  # a slice object bound to a local first
+    is_start = lambda x: x is None or const_value(x) == 0 or (isinstance(x, ast.Constant) and x.value is None)  # noqa: E731
+    if isinstance(sl, ast.Slice) and is_start(sl.lower) and sl.step is None and sl.upper is not None:
+        up = sl.upper
+    elif isinstance(sl, ast.Call) and call_name(sl) == "slice" and not sl.keywords and len(sl.args) == 1:
+        up = sl.args[0]
+    elif isinstance(sl, ast.Call) and call_name(sl) == "slice" and not sl.keywords and len(sl.args) == 2 and is_start(sl.args[0]):
+        up = sl.args[1]
+    else:
+        return False
+    val, vn = _through(cfg, up, n)
+    return isinstance(val, ast.Call) and call_name(val) == "min" and len(val.args) == 2 and not val.keywords \
+        and all(isinstance(a, ast.Subscript) and const_value(a.slice) == k for a in val.args) and roles.is_size_pair([a.value for a in val.args], vn)
+
+
 def _shrink_slices(ck: Check, repo: Repo, fn: Fn) -> None:
     cfg = CFG(fn.node)
     tb = TermBuilder(repo, fn, cfg=cfg, depth=0)
     old_p, new_p = fn.named_params[0], fn.named_params[1]
     roles = _Roles(fn, cfg)
     sliced = [n for n in cfg.live_nodes() if n.kind == "stmt" and isinstance(n.ast, ast.Assign) and isinstance(n.ast.targets[0], ast.Subscript)]
-    ck.floor("C04.2", len(sliced), 2, "sliced copies in shrink_preserve_parameters", fn=fn)
+    # one copy statement stands for as many copies as its index has values (a 1-D / an n-D index selected beforehand; the generic
+    # per-dimension form covers both ranks)
+    n_copies = 0
+    results = []
     for n in sliced:
-        t, v = n.ast.targets[0], n.ast.value
-        ok = isinstance(v, ast.Subscript) and ast.unparse(t.slice) == ast.unparse(v.slice)
-        ck.ob("C04.2", fn, n.ast, ok, "the same index expression is used on both sides")
-        lt, rt = tb.term(t.value, n), tb.term(v.value if isinstance(v, ast.Subscript) else v, n)
-        ck.ob("C04.2", fn, n.ast, _from(tb, lt, new_p) and not _from(tb, lt, old_p) and _from(tb, rt, old_p) and not _from(tb, rt, new_p), "old -> new")
-        dims = t.slice.elts if isinstance(t.slice, ast.Tuple) else [t.slice]
-        okd = True
-        for k, sl in enumerate(dims):
-            if not (isinstance(sl, ast.Slice) and sl.lower is None and sl.step is None and isinstance(sl.upper, ast.Name)):
-                okd = False
-                continue
-            defs = cfg.defs_reaching(n, sl.upper.id)
-            val = cfg.value_of_def(defs[0], sl.upper.id) if len(defs) == 1 else None
-            okd = okd and isinstance(val, ast.Call) and call_name(val) == "min" and len(val.args) == 2 and not val.keywords \
-                and all(isinstance(a, ast.Subscript) and const_value(a.slice) == k for a in val.args) \
-                and roles.is_size_pair([a.value for a in val.args], defs[0])
-        ck.ob("C04.2", fn, n.ast, okd, "dimension k is cut at min(old_size[k], new_size[k])", detail=short(t.slice, 60))
+        t = n.ast.targets[0]
+        v, vn = _through(cfg, n.ast.value, n)  # the value read from the old tensor, directly or through a temporary
+        same = isinstance(v, ast.Subscript) and _same_index(cfg, t.slice, n, v.slice, vn)
+        flow_l, flow_r = tb.term(t.value, n), tb.term(v.value if isinstance(v, ast.Subscript) else v, vn)
+        flow = _from(tb, flow_l, new_p) and not _from(tb, flow_l, old_p) and _from(tb, flow_r, old_p) and not _from(tb, flow_r, new_p)
+        cases = _index_cases(cfg, t.slice, n) or []
+        okd = okr = bool(cases)
         # rank guard: 1-D branch copies one dimension, the other branch two
         rank1 = any(pol and any(isinstance(x, ast.Compare) and len(x.ops) == 1 and isinstance(x.ops[0], ast.Eq) and roles.is_rank_of_param(x.left, gt)
                                 and const_value(x.comparators[0]) == 1 for x in ast.walk(g)) for g, pol, gt in cfg.guards_at(n))
-        ck.ob("C04.2", fn, n.ast, (len(dims) == 1) == rank1, "one index for 1-D parameters, two leading indices otherwise")
+        rank1 = rank1 or any(_rank_is_one(roles, a, apol, gt) for g, pol, gt in cfg.guards_at(n) for a, apol in conjuncts(g, pol))
+        n_copies += 0 if cases else 1  # an index that is not understood: still one copy statement (its obligations fail below)
+        for elts, conds, generic in cases:
+            if generic is not None:
+                # right for every rank; stands for both copies unless it is executed for 1-D parameters only
+                n_copies += 1 if rank1 else 2
+                okd = okd and _generic_min_index(roles, generic[0], generic[1])
+                continue
+            n_copies += 1
+            okd = okd and all(_cut_at_min(cfg, roles, sl, sn, k) for k, (sl, sn) in enumerate(elts))
+            okr = okr and (len(elts) == 1) == (rank1 or any(_rank_is_one(roles, a, pol, ct) for a, pol, ct in conds))
+        results.append((n, same, flow, okd, okr, t))
+    ck.floor("C04.2", n_copies, 2, "sliced copies in shrink_preserve_parameters", fn=fn)
+    for n, same, flow, okd, okr, t in results:
+        ck.ob("C04.2", fn, n.ast, same, "the same index expression is used on both sides")
+        ck.ob("C04.2", fn, n.ast, flow, "old -> new")
+        ck.ob("C04.2", fn, n.ast, okd, "dimension k is cut at min(old_size[k], new_size[k])", detail=short(t.slice, 60))
+        ck.ob("C04.2", fn, n.ast, okr, "one index for 1-D parameters, two leading indices otherwise")
+
+
+def _rank_is_one(roles: _Roles, a: ast.AST, pol: bool, n: Node) -> bool:
+    """the condition (a evaluating to pol, read at n) says: the rank of the new parameter is 1  (`rank == 1` true / `rank != 1` false, either order)"""
+    if not (isinstance(a, ast.Compare) and len(a.ops) == 1 and isinstance(a.ops[0], (ast.Eq, ast.NotEq))):
+        return False
+    l, r = a.left, a.comparators[0]
+    if const_value(l) == 1:
+        l, r = r, l
+    return roles.is_rank_of_param(l, n) and const_value(r) == 1 and type(const_value(r)) is int and isinstance(a.ops[0], ast.Eq) == pol
 
 
 def _reinit_sites(fn: Fn) -> List[ast.AST]:
@@ -851,4 +1050,56 @@ VARIANTS += [
     ("preserve-index-alias-ok", _MB, _SLICED, "                    same = slice_index\n                    param.data[slice_index] = old_param.data[same]", "silent", None),
     ("preserve-index-in-place-ok", _MB, "                    slice_index = tuple(\n                        slice(0, min(o, n)) for o, n in zip(old_size, new_size)\n                    )\n" + _SLICED,
      "                    param.data[tuple(slice(0, min(o, n)) for o, n in zip(old_size, new_size))] = old_param.data[tuple(slice(0, min(o, n)) for o, n in zip(old_size, new_size))]", "silent", None),
+]
+
+_SHRINK_COPIES = ("                    min_0 = min(old_size[0], new_size[0])\n                    if len(param.data.size()) == 1:\n"
+                  "                        param.data[:min_0] = old_param.data[:min_0]\n\n"
+                  "                    # NOTE: We specifically implement this method to only maintain spatial\n"
+                  "                    # information in convolutional layers when reducing kernel / channel\n                    # sizes within a layer.\n"
+                  "                    else:\n                        min_1 = min(old_size[1], new_size[1])\n"
+                  "                        param.data[:min_0, :min_1] = old_net_dict[key].data[\n                            :min_0, :min_1\n                        ]\n")
+_ONE_COPY = "                    param.data[common] = old_param.data[common]\n"
+_COMMON_0 = "                    common = (slice(0, min(old_size[0], new_size[0])),)\n"
+_COMMON_1 = "                        common += (slice(0, min(old_size[1], new_size[1])),)\n"
+_SHRINK_TAIL = ("        # Buffers (e.g. BatchNorm running statistics) also determine the function computed\n        old_buffers = dict(old_net.named_buffers())\n"
+                "        for key, buffer in new_net.named_buffers():\n            if key in old_buffers and old_buffers[key].size() == buffer.size():\n"
+                "                buffer.data = old_buffers[key].data\n\n"
+                "        # A freshly built network is in training mode: keep the mode of the one it replaces\n        new_net.train(old_net.training)\n\n        return new_net\n")
+_CARRY_HEAD = "\n        return new_net\n\n    @staticmethod\n    def carry_buffers_and_mode(old_net: nn.Module, new_net: nn.Module) -> None:\n        old_buffers = dict(old_net.named_buffers())\n"
+_CARRY_LOOP = ("        for key, buffer in new_net.named_buffers():\n            old_buffer = old_buffers.get(key)\n"
+               "            if old_buffer is not None and old_buffer.size() == buffer.size():\n                buffer.data = old_buffer.data\n")
+_CARRY_MODE = "        new_net.train(old_net.training)\n"
+VARIANTS += [
+    # the two copy statements (1-D / n-D) merged into ONE whose index is selected beforehand == the two statements under the rank test
+    ("shrink-one-copy-index-built-up-ok", _CNN, _SHRINK_COPIES, _COMMON_0 + "                    if len(new_size) != 1:\n" + _COMMON_1 + _ONE_COPY, "silent", None),
+    ("shrink-one-copy-conditional-index-ok", _CNN, _SHRINK_COPIES,
+     "                    first = slice(0, min(old_size[0], new_size[0]))\n"
+     "                    common = (first,) if param.dim() == 1 else (first, slice(min(new_size[1], old_size[1])))\n" + _ONE_COPY, "silent", None),
+    ("shrink-one-copy-generic-index-ok", _CNN, _SHRINK_COPIES,
+     "                    common = tuple(slice(0, min(o, n)) for o, n in zip(old_size, new_size))[:2]\n" + _ONE_COPY, "silent", None),
+    ("shrink-one-copy-rank-test-inverted", _CNN, _SHRINK_COPIES, _COMMON_0 + "                    if len(new_size) == 1:\n" + _COMMON_1 + _ONE_COPY, "fire", "C04.2"),
+    ("shrink-one-copy-second-dim-of-old", _CNN, _SHRINK_COPIES,
+     _COMMON_0 + "                    if len(new_size) != 1:\n                        common += (slice(0, old_size[1]),)\n" + _ONE_COPY, "fire", "C04.2"),
+    ("shrink-one-copy-second-dim-cut-at-first", _CNN, _SHRINK_COPIES,
+     _COMMON_0 + "                    if len(new_size) != 1:\n                        common += (slice(0, min(old_size[0], new_size[0])),)\n" + _ONE_COPY, "fire", "C04.2"),
+    ("shrink-one-copy-first-dim-only", _CNN, _SHRINK_COPIES, _COMMON_0 + _ONE_COPY, "fire", "C04.2"),
+    ("shrink-one-copy-generic-index-three-dims", _CNN, _SHRINK_COPIES,
+     "                    common = tuple(slice(0, min(o, n)) for o, n in zip(old_size, new_size))[:3]\n" + _ONE_COPY, "fire", "C04.2"),
+    ("shrink-one-copy-generic-index-max", _CNN, _SHRINK_COPIES,
+     "                    common = tuple(slice(0, max(o, n)) for o, n in zip(old_size, new_size))[:2]\n" + _ONE_COPY, "fire", "C04.2"),
+    ("shrink-one-copy-other-index-on-old", _CNN, _SHRINK_COPIES, _COMMON_0 + "                    if len(new_size) != 1:\n" + _COMMON_1
+     + "                    param.data[common] = old_param.data[common[:1]]\n", "fire", "C04.2"),
+    # buffers and mode carried over by a function that is handed both networks (not inlined by the front end: followed interprocedurally)
+    ("shrink-buffers-and-mode-in-static-helper-ok", _CNN, _SHRINK_TAIL,
+     "        EvolvableCNN.carry_buffers_and_mode(old_net, new_net)\n" + _CARRY_HEAD + _CARRY_LOOP + _CARRY_MODE, "silent", None),
+    ("shrink-static-helper-by-keyword-ok", _CNN, _SHRINK_TAIL,
+     "        rebuilt = new_net\n        EvolvableCNN.carry_buffers_and_mode(new_net=rebuilt, old_net=old_net)\n" + _CARRY_HEAD + _CARRY_LOOP + _CARRY_MODE, "silent", None),
+    ("shrink-static-helper-networks-swapped", _CNN, _SHRINK_TAIL,
+     "        EvolvableCNN.carry_buffers_and_mode(new_net, old_net)\n" + _CARRY_HEAD + _CARRY_LOOP + _CARRY_MODE, "fire", "C04.2"),
+    ("shrink-static-helper-drops-buffers", _CNN, _SHRINK_TAIL,
+     "        EvolvableCNN.carry_buffers_and_mode(old_net, new_net)\n" + _CARRY_HEAD + _CARRY_MODE, "fire", "C04.2"),
+    ("shrink-static-helper-drops-mode", _CNN, _SHRINK_TAIL,
+     "        EvolvableCNN.carry_buffers_and_mode(old_net, new_net)\n" + _CARRY_HEAD + _CARRY_LOOP, "fire", "C04.2"),
+    ("shrink-static-helper-never-called", _CNN, _SHRINK_TAIL,
+     "        return new_net\n        EvolvableCNN.carry_buffers_and_mode(old_net, new_net)\n" + _CARRY_HEAD + _CARRY_LOOP + _CARRY_MODE, "fire", "C04.2"),
 ]
